@@ -33,11 +33,15 @@ package utils
 //@   modifies p.$bagver
 //@   ensures uf_b_has(p, key, p.$bagver) && uf_s_peek(p, key, p.$bagver) == value
 
-// the canonical form of a request path (path.Clean plus the trailing-slash rule); abstracted as a function of the string
+// the canonical form of a request path: the empty path is "/", every other path is rooted and goes through path.Clean
+// (dot segments, doubled slashes), and a trailing slash of the input is kept. What path.Clean itself computes is the
+// standard library's; callers see the result as a function of the input string.
 //@ func CleanPath(p)
-//@   trusted "path canonicalisation (path.Clean and string slicing) abstracted by an uninterpreted function of the string"
-//@   pure
-//@   ensures result == uf_s_CleanPath(p)
+//@   props C05
+//@   modifies nothing
+//@   ensures [C05.clean.empty] p == "" ==> result == "/" && calls(path.Clean) == 0
+//@   ensures [C05.clean.always] p != "" ==> calls(path.Clean) == 1 && arg(path.Clean, 1, path) == (at(p, 0) != 47 ? concat("/", p) : p)
+//@   ensures [C05.clean.slash] p != "" && (at(arg(path.Clean, 1, path), len(arg(path.Clean, 1, path)) - 1) != 47 || ret(path.Clean, 1) == "/") ==> result == ret(path.Clean, 1)
 //@ func StripHostPort(h)
 //@   trusted "host:port splitting abstracted by an uninterpreted function of the string"
 //@   pure
